@@ -11,6 +11,8 @@
 //!   c04.total      `serialize` never panics (names from every Unicode plane, NaN, ±inf)
 //!   c04.save       values as new / updated objects through the REAL `Storage::save`, the saved file re-opened
 //!                  with the library: every object resolves to the value written
+//! Streams nested inside arrays, dictionaries and other streams' dictionaries are generated on purpose
+//! (histogram `nested-stream=in-array|in-dict|in-stream-dict`); their dictionaries and data bytes must read back.
 
 use crate::c03::render::*;
 use crate::c03::*;
@@ -91,16 +93,83 @@ fn gen_infile(rng: &mut Rng) -> Option<(Primitive, Val)> {
     Some((prim, val))
 }
 
+/// where the streams of `v` that are not the value itself sit: `in-array` | `in-dict` | `in-stream-dict`
+fn nested_streams(v: &Val, parent: Option<&'static str>, f: &mut dyn FnMut(&'static str)) {
+    match v {
+        Val::StreamPending(kvs, _) | Val::StreamInFile(kvs, ..) => {
+            if let Some(p) = parent { f(p); }
+            kvs.iter().for_each(|(_, x)| nested_streams(x, Some("in-stream-dict"), f));
+        }
+        Val::Arr(xs) => xs.iter().for_each(|x| nested_streams(x, Some("in-array"), f)),
+        Val::Dict(kvs) => kvs.iter().for_each(|(_, x)| nested_streams(x, Some("in-dict"), f)),
+        _ => {}
+    }
+}
+
+fn nested_kinds(v: &Val) -> Vec<&'static str> {
+    let mut ks = vec![];
+    nested_streams(v, None, &mut |k| ks.push(k));
+    ks
+}
+
+/// a `Pending` stream with a direct, correct `/Length`
+fn direct_stream(rng: &mut Rng, cfg: &GenCfg) -> Val {
+    gen_stream(rng, cfg, false).0
+}
+
+/// a value with a `Pending` stream (direct `/Length`) inside an array, as a dictionary value, or as a value of
+/// another stream's dictionary — also combined and two levels down
+fn gen_nested_stream(rng: &mut Rng, cfg: &GenCfg) -> Val {
+    fn wrap(rng: &mut Rng, cfg: &GenCfg, s: Val) -> Val {
+        match rng.below(7) {
+            0 => Val::Arr(vec![s, Val::Int(7)]),
+            1 => { let a = gen_scalar(rng, cfg); Val::Arr(vec![a, s]) }
+            2 => { let mut xs: Vec<Val> = (0..rng.usize(4)).map(|_| gen_scalar(rng, cfg)).collect(); let at = rng.usize(xs.len() + 1); xs.insert(at, s); Val::Arr(xs) }
+            3 => Val::Dict(vec![(b"S".to_vec(), s), (b"T".to_vec(), Val::Int(1))]),
+            4 => { let a = gen_scalar(rng, cfg); Val::Dict(vec![(b"A".to_vec(), a), (b"S".to_vec(), s)]) }
+            5 => {
+                let n = rng.usize(3);
+                let mut kvs: Vec<(Vec<u8>, Val)> = gen_entries(rng, 2, cfg, n).into_iter().filter(|e| e.0 != b"S").collect();
+                let at = rng.usize(kvs.len() + 1);
+                kvs.insert(at, (b"S".to_vec(), s));
+                Val::Dict(kvs)
+            }
+            _ => {
+                // the stream as a value of another stream's dictionary
+                match direct_stream(rng, cfg) {
+                    Val::StreamPending(kvs, data) => {
+                        let mut kvs: Vec<(Vec<u8>, Val)> = kvs.into_iter().filter(|e| e.0 != b"Inner").collect();
+                        let at = rng.usize(kvs.len() + 1);
+                        kvs.insert(at, (b"Inner".to_vec(), s));
+                        Val::StreamPending(kvs, data)
+                    }
+                    other => other,
+                }
+            }
+        }
+    }
+    let s = direct_stream(rng, cfg);
+    let mut v = wrap(rng, cfg, s);
+    if rng.chance(1, 3) { v = wrap(rng, cfg, v); }
+    if rng.chance(1, 6) {
+        // two streams side by side
+        let t = direct_stream(rng, cfg);
+        v = if rng.chance(1, 2) { Val::Arr(vec![v, t]) } else { Val::Dict(vec![(b"P".to_vec(), v), (b"Q".to_vec(), t)]) };
+    }
+    v
+}
+
 /// the value of one C04 case (and the `/Length` map its re-reading needs)
 fn gen_value(rng: &mut Rng, cfg: &GenCfg) -> (Val, LenMap) {
     match rng.below(20) {
-        0..=13 => (gen_val(rng, 0, cfg), vec![]),
-        14..=16 => gen_stream(rng, cfg, true),
-        17 => {
+        0..=12 => (gen_val(rng, 0, cfg), vec![]),
+        13..=15 => gen_stream(rng, cfg, true),
+        16 => {
             let (s, lens) = gen_stream(rng, cfg, true);
             let a = gen_scalar(rng, cfg);
             if rng.chance(1, 2) { (Val::Arr(vec![a, s]), lens) } else { (Val::Dict(vec![(b"A".to_vec(), a), (b"S".to_vec(), s)]), lens) }
         }
+        17 | 18 => (gen_nested_stream(rng, cfg), vec![]),
         _ => (gen_val(rng, 1, cfg), vec![]),
     }
 }
@@ -244,6 +313,7 @@ fn one_value(v: &Val, lens: &LenMap, prim: Option<Primitive>, rng: &mut Rng, b: 
         let mut ks = vec![];
         count_kinds(v, &mut |k| ks.push(k.to_string()));
         for k in ks { rt.count(&format!("kind={}", k)); }
+        for k in nested_kinds(&c.expected) { rt.count(&format!("nested-stream={}", k)); }
         rt.count(&format!("context={}", c.name));
         rt.case(&hex(&c.buf), true, || json!({"context": c.name, "value": show_val(v), "text": String::from_utf8_lossy(&c.buf), "got": got.text}));
         if let Some((sig, what)) = check_roundtrip(&c, &got, &forms) {
@@ -302,6 +372,20 @@ fn witnesses() -> Vec<(&'static str, Val)> {
         ("nested empty array and dictionary", Val::Arr(vec![Val::Arr(vec![]), Val::Dict(vec![]), Val::Dict(vec![(b"E".to_vec(), Val::Arr(vec![]))])])),
         ("reference", Val::Ref(12, 0)),
         ("stream with its data", Val::StreamPending(vec![(b"Length".to_vec(), Val::Int(9))], b"endstream".to_vec())),
+    ].into_iter().chain(nested_stream_witnesses()).collect()
+}
+
+fn plain_stream(data: &[u8]) -> Val {
+    Val::StreamPending(vec![(b"Length".to_vec(), Val::Int(data.len() as i64))], data.to_vec())
+}
+
+/// streams that are not the object itself (also run through the real `Storage::save`)
+fn nested_stream_witnesses() -> Vec<(&'static str, Val)> {
+    vec![
+        ("stream inside an array: [ <stream abc> 7 ]", Val::Arr(vec![plain_stream(b"abc"), Val::Int(7)])),
+        ("stream as a dictionary value, data containing endstream: << /S <stream a LF endstream LF b> /T 1 >>", Val::Dict(vec![(b"S".to_vec(), plain_stream(b"a\nendstream\nb")), (b"T".to_vec(), Val::Int(1))])),
+        ("empty stream two arrays down: [ [ <stream> ] ]", Val::Arr(vec![Val::Arr(vec![plain_stream(b"")])])),
+        ("stream whose dictionary holds a stream: << /Length 3 /Inner <stream xy> >> abc", Val::StreamPending(vec![(b"Length".to_vec(), Val::Int(3)), (b"Inner".to_vec(), plain_stream(b"xy"))], b"abc".to_vec())),
     ]
 }
 
@@ -338,6 +422,7 @@ fn ser_streams(driver: &Driver, seed: u64, from: u64, to: u64, witness_only: Opt
         }
         let (v, lens) = gen_value(&mut rng, &CFG);
         st_ser.count(&format!("top={}", kind_name(&v)));
+        for k in nested_kinds(&v) { st_ser.count(&format!("nested-stream={}", k)); }
         let mut rj = rp("");
         rj["value"] = json!(show_val(&v));
         rj["lens"] = json!(show_lens(&lens));
@@ -448,7 +533,7 @@ fn save_witnesses() -> Vec<(&'static str, Val)> {
         ("Pending stream", Val::StreamPending(vec![(b"Length".to_vec(), Val::Int(3))], b"abc".to_vec())),
         ("null, reference, boolean", Val::Arr(vec![Val::Null, Val::Ref(1, 0), Val::Bool(false)])),
         ("name ending the body", Val::Name(b"N".to_vec())),
-    ]
+    ].into_iter().chain(nested_stream_witnesses()).collect()
 }
 
 /// one save of `vals`; every value read back must equal the one written
@@ -461,7 +546,7 @@ fn save_case(or: &mut Oracle, vals: &[Val], use_update: bool, replay: Value) {
     let prims: Vec<Primitive> = match vals.iter().map(val_to_prim).collect::<Option<Vec<_>>>() { Some(p) => p, None => return };
     or.count(&format!("objects={}", vals.len()));
     if use_update { or.count("with-update-of-existing-object"); }
-    for v in vals { or.count(&format!("top={}", kind_name(v))); }
+    for v in vals { or.count(&format!("top={}", kind_name(v))); for k in nested_kinds(v) { or.count(&format!("nested-stream={}", k)); } }
     let r = save_and_reload(&prims, use_update);
     let key = vals.iter().map(show_val).collect::<Vec<_>>().join(" ");
     or.case(&key, true, || json!({"values": key, "result": match &r { Ok(vs) => json!(vs.iter().map(|v| match v { Ok(v) => show_canon(v), Err(e) => format!("err {}", e) }).collect::<Vec<_>>()), Err(e) => json!(format!("{}: {}", e.0, e.1)) }}));
